@@ -5,6 +5,7 @@ import (
 	"html/template"
 	"os"
 	"os/exec"
+	"regexp"
 	"strings"
 	"time"
 
@@ -163,6 +164,9 @@ func c04extra() map[string]interface{} {
 	}
 }
 
+// the call-site error of a built-in helper (the shipped global helpers) that quotes a recovered panic
+var recoveredInBuiltin = regexp.MustCompile(`could not call (len|range|between|until|groupBy|truncate|raw|htmlEscape|jsEscape|toJSON|json|contentOf|contentFor|partial|pathFor|inspect|debug|form|formFor|form_for|env|envOr|capitalize|markdown|hasBlock)\b[^:]* function: (runtime error|reflect)`)
+
 func (e *Env) c04case(tag string, tmpl string, modelled bool, extra map[string]interface{}) {
 	c := RCase{Tmpl: tmpl, Binds: c04pool(), Parts: stdParts}
 	var o RObs
@@ -181,7 +185,7 @@ func (e *Env) c04case(tag string, tmpl string, modelled bool, extra map[string]i
 	}
 	// a panic raised INSIDE a called function is reported by the call site as the call's error: for a
 	// built-in helper that is still a helper that panicked (the text of a Go run-time panic gives it away)
-	if strings.HasPrefix(tag, "builtin") && o.Class == "ERR" && (strings.Contains(o.Msg, "runtime error:") || strings.Contains(o.Msg, "reflect: ") || strings.Contains(o.Msg, "reflect.Value.")) {
+	if o.Class == "ERR" && (strings.HasPrefix(tag, "builtin") || recoveredInBuiltin.MatchString(o.Msg)) && (strings.Contains(o.Msg, "runtime error:") || strings.Contains(o.Msg, "reflect: ") || strings.Contains(o.Msg, "reflect.Value.")) {
 		e.Violate("eval-panic@recovered-in-builtin", fmt.Sprintf("a built-in helper panicked on %q (recovered at the call site): %s", tmpl, firstLine(o.Msg)), map[string]interface{}{"tmpl": tmpl, "observed": o})
 	}
 }
@@ -374,6 +378,11 @@ func init() {
 		// the repaired defects stay in the corpus
 		for _, t := range []string{`<%= vm[vnil] %>`, `<% vmi["b"] = "x" %>`, `<% vmi[1] = 1 %>`, `<% vxs[0] = vnil %>`, `<%= vxs[0 - 1] %>`, `<%= len(1) %>`, `<%= truncate("abc", {size: "x"}) %>`, `<% let g = fn(a, b) { return a } %><%= g(1) %>`, `<%= vt1.NilP.Hello("x") %>`, `<%= {let: 1} %>`} {
 			e.c04case("corpus", t, true, nil)
+		}
+		// block helpers called WITHOUT a block, alone and followed by what would replay the block
+		for _, tm := range []string{`<% contentFor("a") %><%= contentOf("a") %>`, `<% contentFor("a") %><%= contentOf("a", {"label": "x"}) %>`, `<% contentFor("a") %><%= contentOf("a") { %>d<% } %>`,
+			`<%= contentOf("a") %>`, `<%= blk() %>`, `<%= blkctx({w: 1}) %>`, `<%= blk2() %>`, `<% contentFor("a") %><% contentFor("a") { %>x<% } %><%= contentOf("a") %>`, `<%= for (i) in [1, 2] { %><% contentFor("l") %><%= contentOf("l") %><% } %>`} {
+			e.c04case("builtin-noblock", tm, false, map[string]interface{}{})
 		}
 		// unexported struct fields of every shape (pointers to types that print themselves included), on a
 		// value and on a pointer receiver: reading one is an error (or nothing), never a panic
